@@ -2,9 +2,9 @@
 Specs: server/AcceptDispatch.tla (C04_RoundRobin, C04_SaturatedGetsNothingStep) and server/Availability.tla."""
 import srvflow
 
-INV = ["T_C04_RoundRobin", "T_C04_SaturatedGetsNothing"]
-DESIGN = ["MC_core_quick.cfg", "MC_core_l1.cfg", "MC_core_2l.cfg", "MC_cmd_quick.cfg"]
-EDGES = ["MC_core_quick.cfg", "MC_core_l1.cfg", "MC_cmd_quick.cfg"]
+INV = ["T_C04_RoundRobin", "T_C04_RoundRobinMeasured", "T_C04_SaturatedGetsNothing"]
+DESIGN = ["MC_core_quick.cfg", "MC_core_l1.cfg", "MC_core_2l.cfg", "MC_cmd_quick.cfg", "MC_fault_quick.cfg"]
+EDGES = ["MC_core_quick.cfg", "MC_core_l1.cfg", "MC_cmd_quick.cfg", "MC_fault_quick.cfg"]
 THOROUGH = ["MC_core_w3.cfg", "MC_core_l3.cfg", "MC_core_w3l3.cfg", "MC_core_w3c7.cfg", "MC_core_l4c9.cfg"]
 NEGS = {"NEG_RoundRobinStuck.cfg": ["C04_RoundRobin"], "NEG_NoClearOnLimit.cfg": ["C02_Bound", "Steps"]}
 
@@ -17,8 +17,8 @@ def nontrivial(s, run):
 
 def run(ctx):
     srvflow.run_check(
-        ctx, design=DESIGN, edge_cfgs=EDGES, negs=NEGS, invariants=INV, corpus=["server_core.ndjson", "server_cmd.ndjson", "server_cmd_sat.ndjson"],
-        thorough_design=THOROUGH, nontrivial=nontrivial,
+        ctx, design=DESIGN, edge_cfgs=EDGES, negs=NEGS, invariants=INV, corpus=["server_core.ndjson", "server_cmd.ndjson", "server_cmd_sat.ndjson", "server_fault.ndjson"],
+        thorough_design=THOROUGH, nontrivial=nontrivial, random_flavour=('core', 'fault'), random_quick=240,
         rule="schedules as for C02/C03; the dispatch log (connection, target worker, 'rotation undisturbed after this "
              "dispatch' measured at the increment yield point) is checked by TLC: any W consecutive dispatches inside an "
              "undisturbed window hit W distinct workers; non-trivial = the run contains such a window with W >= 2")
